@@ -2,9 +2,12 @@ import JunoModel.Common.Proto
 import JunoModel.C08.Model
 import JunoModel.C08.ModelEnv
 import JunoModel.C08.ModelV
+import JunoModel.C08.ModelDb
 /-!
 Line-protocol driver for the C08 model (`lake build c08drv`). All numbers are hex without prefix.
-Every request of API version X is answered by the transcription of package rpc/vX (`ModelV.lean`).
+Every request of API version X is answered by the transcription of package rpc/vX over the database
+records (`ModelDb.lean`: `serveDb`; on a node that was never pruned this is `serveV` of `ModelV.lean`,
+PropsDb `unpruned_db_refines`).
 
   reset                                         -> ok
   store <num> <hash> <parent> <root> <oldroot> <item>*  -> ok | err:rejected
@@ -31,6 +34,11 @@ Every request of API version X is answered by the transcription of package rpc/v
         flags = absent | null | x | l:<flag>,<flag>,… (`l:` is the empty list, `~` the empty string)
   shape <ver> <method> e | p:<n> | n:<name>,…   -> pass | err:-32602  (buildArguments over the method table)
   dump                                          -> h=<height|-> l1=<n|-|zero> nbh=<hash>:<num>,… txl=<hash>:<num>:<idx>,…
+                                                   hdr=<num>,… body=<num>,… com=<num>,… su=<num>,…  (block numbers whose header /
+                                                   transactions / commitments / state-update record exists)
+  prune <e>                                     -> ok | err:damaged   (pruner.PruneUpto(e) run to completion)
+  seed                                          -> ok                 (RetentionFloor.Seed)
+  dropcommit <n>                                -> ok                 (fault: the commitments record of block n is deleted)
   hdr <ver> <seq> <l1wei> <l1fri> <l1data> <l2> <da>  -> seq=… l1=<w>/<f> l1d=<w>/<f> l2=<w>/<f> da=<BLOB|CALLDATA> c=<0|1>
         an absent (nil) value is `-`; a gas price is `-` or `<wei|->/<fri|->`; da is the core.L1DAMode number
   hdrcfg <0|1>                                  -> ok   (rpc/v8 renders a nil L1 gas price in wei as null)
@@ -139,6 +147,10 @@ def render : Ans → String
   | .crash => "crash"
   | .pendingBlock p => "ok pending " ++ natToHex p
   | .pendingUpdate orr d => "ok pending-update " ++ natToHex orr ++ " " ++ diffS d
+
+def renderD : DAns → String
+  | .ans a => render a
+  | .internal => "err:-32603"
 
 def parseBackend : String → Option Backend
   | "legacy" => some .legacy
@@ -318,6 +330,16 @@ def dumpNode (nd : Node) : String :=
   let txl := sortS ((dedupKeys nd.txLoc).map (fun e => natToHex e.1 ++ ":" ++ natToHex e.2.1 ++ ":" ++ natToHex e.2.2))
   "h=" ++ h ++ " l1=" ++ l1 ++ " nbh=" ++ joinOr nbh ++ " txl=" ++ joinOr txl
 
+def numsS (l : List Nat) : String := joinOr (l.map natToHex)
+
+def dumpDb (db : Db) : String :=
+  let ns := List.range db.len
+  dumpNode db.nd ++
+    " hdr=" ++ numsS (ns.filter (fun n => (db.header n).isSome)) ++
+    " body=" ++ numsS (ns.filter (fun n => (db.body n).isSome)) ++
+    " com=" ++ numsS (ns.filter (fun n => db.hasCommit n)) ++
+    " su=" ++ numsS (ns.filter (fun n => (db.update n).isSome))
+
 def parseOptNat (s : String) : Option (Option Nat) :=
   if s == "-" then some none else (hexToNat? s).map some
 
@@ -350,58 +372,67 @@ def stepHdr (hc : HdrCfg) (args : List String) : String :=
   | _ => "bad-op"
 
 structure St where
-  nd : Node := {}
+  db : Db := {}
   cfg : Cfg := {}
   hdrCfg : HdrCfg := {}
 
-def stepNode (cfg : Cfg) (nd : Node) (line : String) : Node × String :=
+def stepNode (cfg : Cfg) (db : Db) (line : String) : Db × String :=
   match words line with
   | ["reset"] => ({}, "ok")
   | "store" :: num :: hash :: parent :: root :: oldRoot :: items =>
     match parseBlock num hash parent root oldRoot items with
-    | none => (nd, "bad-op")
+    | none => (db, "bad-op")
     | some b =>
-      match store nd b with
-      | some nd' => (nd', "ok")
-      | none => (nd, "err:rejected")
+      match db.store b with
+      | some db' => (db', "ok")
+      | none => (db, "err:rejected")
   | ["revert"] =>
-    match revert nd with
-    | some nd' => (nd', "ok")
-    | none => (nd, "err:empty")
-  | ["l1", "none"] => (setL1 nd none, "ok")
-  | ["l1", "zero"] => (setL1Zero nd, "ok")
+    match db.revert with
+    | some db' => (db', "ok")
+    | none => (db, "err:empty")
+  | ["l1", "none"] => ({ db with nd := setL1 db.nd none }, "ok")
+  | ["l1", "zero"] => ({ db with nd := setL1Zero db.nd }, "ok")
   | ["l1", n] =>
     match hexToNat? n with
-    | some n => (setL1 nd (some n), "ok")
-    | none => (nd, "bad-op")
-  | ["dump"] => (nd, dumpNode nd)
+    | some n => ({ db with nd := setL1 db.nd (some n) }, "ok")
+    | none => (db, "bad-op")
+  | ["prune", e] =>
+    match hexToNat? e with
+    | some e => if db.noCommit.isEmpty then (db.pruneUpto e, "ok") else (db, "err:damaged")
+    | none => (db, "bad-op")
+  | ["seed"] => (db.seed, "ok")
+  | ["dropcommit", n] =>
+    match hexToNat? n with
+    | some n => (db.dropCommit n, "ok")
+    | none => (db, "bad-op")
+  | ["dump"] => (db, dumpDb db)
   | ["shape", ver, method, shape] =>
     match parseVer ver, parseMethod method, parseShape shape with
-    | some v, some m, some sh => (nd, if shapeOk (paramsOf v m) sh then "pass" else "err:-32602")
-    | _, _, _ => (nd, "bad-op")
+    | some v, some m, some sh => (db, if shapeOk (paramsOf v m) sh then "pass" else "err:-32602")
+    | _, _, _ => (db, "bad-op")
   | ["q", ver, be, "txStatusF", h, fd, sub] =>
     match parseVer ver, parseBackend be, hexToNat? h, parseFeeder fd with
     | some v, some _, some h, some fd =>
       if sub == "0" || sub == "1" then
-        (nd, renderStatus (transactionStatusV v { feeder := fd, submitted := sub == "1" } nd h))
-      else (nd, "bad-op")
-    | _, _, _, _ => (nd, "bad-op")
+        (db, renderStatus (transactionStatusDb v { feeder := fd, submitted := sub == "1" } db h))
+      else (db, "bad-op")
+    | _, _, _, _ => (db, "bad-op")
   | "qf" :: flags :: ver :: be :: method :: args =>
     match parseFlags flags, parseVer ver, parseBackend be, parseRequest method args with
-    | some fl, some v, some be, some r => (nd, render (serveFlaggedV cfg be v nd r fl))
-    | _, _, _, _ => (nd, "bad-op")
+    | some fl, some v, some be, some r => (db, renderD (serveFlaggedDb cfg be v db r fl))
+    | _, _, _, _ => (db, "bad-op")
   | "q" :: ver :: be :: method :: args =>
     match parseVer ver, parseBackend be with
-    | none, _ => (nd, "bad-op")
-    | _, none => (nd, "bad-op")
+    | none, _ => (db, "bad-op")
+    | _, none => (db, "bad-op")
     | some v, some be =>
       match parseRequest method args with
-      | some r => (nd, render (serveV cfg be v nd r))   -- the transcription of version v's own package
+      | some r => (db, renderD (serveDb cfg be v db r))   -- the record-level transcription of version v's own package
       | none =>
         match parseNullRequest method args with
-        | some r => (nd, render (serveNull cfg be v nd r))
-        | none => (nd, "bad-op")
-  | _ => (nd, "bad-op")
+        | some r => (db, render (serveNull cfg be v db.nd r))
+        | none => (db, "bad-op")
+  | _ => (db, "bad-op")
 
 /-- `cfg <nullCrashes 0|1> <nullNumberIsZero 0|1>`: which variant of the code is being looked at. -/
 def step (st : St) (line : String) : St × String :=
@@ -414,7 +445,7 @@ def step (st : St) (line : String) : St × String :=
     if a == "0" || a == "1" then ({ st with hdrCfg := { v8WeiNull := a == "1" } }, "ok") else (st, "bad-op")
   | "hdr" :: args => (st, stepHdr st.hdrCfg args)
   | _ =>
-    let (nd', out) := stepNode st.cfg st.nd line
-    ({ st with nd := nd' }, out)
+    let (db', out) := stepNode st.cfg st.db line
+    ({ st with db := db' }, out)
 
 def main : IO Unit := loop step ({} : St)
